@@ -207,11 +207,11 @@ PROPS["C12"] = dict(
 PROPS["C13"] = dict(
     lean_targets=["Chihaya.Props.C13", "Chihaya.Props.C13Store"],
     props_files=["Chihaya/Props/C13.lean", "Chihaya/Props/C13Store.lean"],
-    streams=[dict(name="C13", quick=8000, thorough=400000), dict(name="C07", quick=6000, thorough=100000), dict(name="C06", quick=6000, thorough=100000)],
+    streams=[dict(name="C13", quick=8000, thorough=400000), dict(name="C07", quick=6000, thorough=100000), dict(name="C06", quick=6000, thorough=100000), dict(name="C09", quick=1100, thorough=30000)],
     rule="cases: malformed and well-formed requests interleaved (raw/truncated/rendered URIs, odd remote addresses; truncated, bit-flipped, option-laden and garbage "
          "datagrams with valid connection IDs) through both real frontends, the real Logic with hook chains and a real store holding a non-trivial state; every call "
          "runs under recover; panics, double datagrams, post-hooks after errors and leaks are reported as failures by the property oracle; the store is dumped after "
-         "every request; plus the parser streams of C06/C07; non-trivial = every request (model tag), distinct op lines",
+         "every request; plus the parser streams of C06/C07 and the head of the response stream of C09 (responses larger than one datagram: a request that gets no datagram at all); non-trivial = every request (model tag), distinct op lines",
     trusted=TRK_TRUST + ["net/http request-line/header syntax is outside the model (the handler is entered at RequestURI/Header/RemoteAddr)"],
     assumptions=["hooks are total (a panicking third-party hook is outside the property)"],
 )
